@@ -33,12 +33,11 @@ func (ws *withSnapshot[SnapT, OpT]) Append(op OpT) {
 
 	ws.Interface.Append(op)
 
-	if ws.snap == nil {
-		return
-	}
-
-	op.Apply(*ws.snap)
-	(*ws.snap).AppendOperation(op)
+	// The snapshot handed out by Compile() is shared with its readers (excerpt and search index
+	// updates, API resolvers), which use it without any lock: it must never change under them.
+	// Applying the operation in place did exactly that and a reader racing with an edit of the
+	// same entity could see torn data. Drop the snapshot instead, the next Compile() builds a new one.
+	ws.snap = nil
 }
 
 // Commit intercept Bug.Commit() to update the snapshot efficiently
